@@ -33,18 +33,20 @@ fn cloneable_ops(full: bool) -> Vec<Op1> {
   v
 }
 
-fn counters(r: &Run) -> (usize, usize, usize) {
+fn counters(r: &Run) -> (usize, usize, usize, usize) {
   (
     Counters::get(&r.cx.ctr.src_calls),
     Counters::get(&r.cx.ctr.pulls),
     Counters::get(&r.cx.ctr.taps),
+    Counters::get(&r.cx.ctr.finals),
   )
 }
 
 fn settle(r: &mut Run, timed: bool) {
   r.drain();
   if timed {
-    for _ in 0..4 {
+    // long enough for three stacked one-tick stages plus a delayed nested start
+    for _ in 0..10 {
       r.tick();
     }
   }
@@ -63,15 +65,15 @@ fn check_pipe(obs: &mut Obs, pipe: &Pipe) {
   settle(&mut r, timed);
   obs.checks += 1;
   let c0 = counters(&r);
-  if c0 != (0, 0, 0) {
+  if c0 != (0, 0, 0, 0) {
     obs.fail(
       format!("c13:eager:{}", sig(pipe)),
-      format!("{}: building ran work: (source closures, iterator pulls, tap calls) = {c0:?}", pipe.show()),
+      format!("{}: building ran work: (source closures, iterator pulls, tap calls, finalizers) = {c0:?}", pipe.show()),
     );
     return;
   }
   let mut traces: Vec<Vec<Note>> = vec![];
-  let mut deltas: Vec<(usize, usize, usize)> = vec![];
+  let mut deltas: Vec<(usize, usize, usize, usize)> = vec![];
   let mut prev = c0;
   let mut keep = vec![];
   for _ in 0..3 {
@@ -79,7 +81,7 @@ fn check_pipe(obs: &mut Obs, pipe: &Pipe) {
     keep.push(op.clone().actual_subscribe(p.clone()));
     settle(&mut r, timed);
     let c = counters(&r);
-    deltas.push((c.0 - prev.0, c.1 - prev.1, c.2 - prev.2));
+    deltas.push((c.0 - prev.0, c.1 - prev.1, c.2 - prev.2, c.3 - prev.3));
     prev = c;
     traces.push(p.notes());
   }
@@ -126,7 +128,7 @@ fn check_pipe(obs: &mut Obs, pipe: &Pipe) {
     obs.fail(
       format!("c13:work-per-subscription:{}", sig(pipe)),
       format!(
-        "{}: (source closures, iterator pulls, tap calls) per subscription = {deltas:?}",
+        "{}: (source closures, iterator pulls, tap calls, finalizer runs) per subscription = {deltas:?}",
         pipe.show()
       ),
     );
